@@ -77,6 +77,22 @@ def probe_suite():
     add('verdict.constants', lambda: m.FormulaGrader(answers='e^(i*pi)')(None, '-1'))
     add('funcs.matrix_only', lambda: m.FormulaGrader(answers='1')(None, 'det([[1,0],[0,1]])'))
     add('undefined.var', lambda: ev('zzz+1')[0])
+    # class-level scopes of the math graders: metric suffixes are off unless asked for,
+    # constants and functions are the documented defaults
+    add('suffix.formula.off', lambda: m.FormulaGrader(answers='2000')(None, '2k'))
+    add('suffix.numerical.off', lambda: m.NumericalGrader(answers='0.002')(None, '2m'))
+    add('suffix.matrix.off', lambda: m.MatrixGrader(answers='2000')(None, '2k'))
+    add('suffix.sum.off', lambda: m.SumGrader(
+        answers={'lower': '1', 'upper': '2', 'summand': 'n', 'summation_variable': 'n'})(
+            None, ['1', '2', 'n+0k', 'n']))
+    add('suffix.formula.on', lambda: m.FormulaGrader(answers='2000', metric_suffixes=True)(None, '2k'))
+    add('consts.formula', lambda: m.FormulaGrader(answers='1')(None, 'infty'))
+    add('consts.numerical.I', lambda: m.NumericalGrader(answers='1')(None, 'I'))
+    add('consts.sum.infty', lambda: m.SumGrader(
+        answers={'lower': '1', 'upper': 'infty', 'summand': '2^(-n)', 'summation_variable': 'n'},
+        infty_val=40)(None, ['1', 'infty', '2^(-n)', 'n']))
+    add('funcs.formula.user_missing', lambda: m.FormulaGrader(answers='1')(None, 'f(1)'))
+    add('funcs.numerical.trans', lambda: m.NumericalGrader(answers='1')(None, 'trans(1)'))
     return out
 
 
